@@ -15,7 +15,10 @@ for d in sorted(os.listdir(ROOT+'/seeded')):
         rows.append((d,'-','patch does not apply')); continue
     try:
         for pid in CHECKS.get(prop,[prop]):
+            ev=ROOT+'/evidence/%s.json'%pid
+            keep=open(ev,'rb').read() if os.path.exists(ev) else None   # evidence must stay the clean tree's
             r=subprocess.run([ROOT+'/check',pid,'--tier','quick'],cwd=ROOT,stdout=subprocess.PIPE,stderr=subprocess.STDOUT)
+            if keep is not None: open(ev,'wb').write(keep)
             out=r.stdout.decode('utf-8','replace')
             kind='ok'
             if r.returncode==1:
